@@ -30,16 +30,37 @@ func init() {
 	errbase.RegisterSpecialCasePrinter(specialCaseFormat)
 }
 
+// safeSentinels are the standard errors whose (constant) text is safe.
+var safeSentinels = []error{
+	context.DeadlineExceeded,
+	context.Canceled,
+	os.ErrInvalid,
+	os.ErrPermission,
+	os.ErrExist,
+	os.ErrNotExist,
+	os.ErrClosed,
+	os.ErrNoDeadline,
+	// The text of the timeout errors of the net package, which are
+	// equivalent to context.DeadlineExceeded.
+	os.ErrDeadlineExceeded,
+}
+
+// hasSentinelText returns true if the text of err is that of one of
+// the sentinels. An error can be equivalent to a sentinel (via an Is
+// method) and still carry a text of its own, which is not known to be
+// safe.
+func hasSentinelText(err error) bool {
+	msg := err.Error()
+	for _, s := range safeSentinels {
+		if msg == s.Error() {
+			return true
+		}
+	}
+	return false
+}
+
 func specialCaseFormat(err error, p errbase.Printer, isLeaf bool) (handled bool, next error) {
-	if isLeaf && markers.IsAny(err,
-		context.DeadlineExceeded,
-		context.Canceled,
-		os.ErrInvalid,
-		os.ErrPermission,
-		os.ErrExist,
-		os.ErrNotExist,
-		os.ErrClosed,
-		os.ErrNoDeadline) {
+	if isLeaf && markers.IsAny(err, safeSentinels...) && hasSentinelText(err) {
 		p.Print(redact.Safe(err.Error()))
 		return true, nil
 	}
